@@ -216,6 +216,32 @@ def run(ctx):
                     (ops[0].upper(), "not both sides were ruled out" if ops[0] == "Or" else "neither side was ruled out"), where=zp.loc(ln))
     ctx.floor("R8", n8, 2, "Some(false) verdicts of compound predicates")
 
+    # ---- R9 a filter refines, it does not replace: an operator that puts a selection on a chunk it received from its child
+    # computes it from the selection the chunk already carries. Overwriting it brings back the rows a filter below had
+    # removed - and the same query is answered correctly when an index serves the lower condition, so the answer depends
+    # on whether the index exists.
+    n9 = 0
+    for f in sorted(P.fns.values(), key=lambda f: f.id):
+        if not f.id.startswith(("grafeo_core::execution::operators::", "<grafeo_core::execution::operators::")) or "::tests::" in f.id \
+                or "::push::" in f.id:
+            continue
+        fx = None
+        for bi, t in f.calls():
+            if not callee_name(t).endswith("DataChunk::set_selection"):
+                continue
+            fx = fx or FlowCx(P, f)
+            src = fx.tags(t["args"][0])
+            if not any(x.startswith("call:") and x.endswith("::next") for x in src):
+                continue          # a chunk the operator built itself
+            n9 += 1
+            sel = fx.tags(t["args"][1])
+            refines = any(x in sel for x in ("call:DataChunk::selection", "call:DataChunk::selected_indices")) or \
+                any(x.startswith("call:SelectionVector::") and x.split("::")[-1] in ("filter", "intersect") for x in sel)
+            ctx.ob("R9", "%s#refines-selection" % short_id(f.id), refines,
+                   what="%s sets a selection on the chunk it received without reading the selection the chunk already carries: "
+                        "rows removed by an operator below come back" % short_id(f.id), where=f.loc(t["line"]))
+    ctx.floor("R9", n9, 1, "operators that set a selection on a received chunk")
+
 
 def variant_pairs(P, fn):
     """(variant of arg A, variant of arg B) pairs under which fn does real work (a call, comparison or cast)"""
